@@ -135,6 +135,8 @@ impl<M: Hash + Clone + Eq, A: Ord + Hash + Clone> CmRDT for Orswot<M, A> {
     open spec fn cm_pre(&self, op: &Op<M, A>) -> bool { clone_ok::<A>() && (op is Rm ==> nz(op->Rm_clock@)) }
     open spec fn cm_post(old_: &Self, op: &Op<M, A>, new_: &Self) -> bool { apply_post(*old_, *op, *new_) }
     open spec fn cm_vpre(&self, op: &Op<M, A>) -> bool { true }
+    open spec fn cm_vhyp() -> bool { true }
+    open spec fn cm_vflag(&self, op: &Op<M, A>) -> bool { op is Add && op->Add_dot.counter > cnt(self.cl(), op->Add_dot.actor) + 1 }
 
 //@extract fn src/orswot.rs "CmRDT for Orswot" validate_op
     fn validate_op(&self, op: &Self::Op) -> /*@ (r: @*/ Result<(), Self::Validation> /*@ ) @*/
@@ -286,6 +288,8 @@ impl<M: Hash + Eq + Clone, A: Ord + Hash + Clone> CvRDT for Orswot<M, A> {
     open spec fn cv_inv(&self) -> bool { base_ok::<M, A>() && self.wf() }
     open spec fn cv_pre(&self, other: &Self) -> bool { clone_ok::<A>() }
     open spec fn cv_post(old_: &Self, other: &Self, new_: &Self) -> bool { merge_post(*old_, *other, *new_) }
+    open spec fn cv_vhyp() -> bool { eq_ok::<M>() }
+    open spec fn cv_flag(&self, other: &Self) -> bool { double_spent(*self, *other) }
 
 //@extract fn src/orswot.rs "CvRDT for Orswot" validate_merge
     fn validate_merge(&self, other: &Self) -> /*@ (r: @*/ Result<(), Self::Validation> /*@ ) @*/
